@@ -244,6 +244,7 @@ func run(r *core.Run) {
 	runIdents(r)
 	runExprs(r)
 	runStatements(r)
+	runForms(r)
 }
 
 // ---------- literal codec ----------
